@@ -222,7 +222,10 @@ func (d *Decoder) decodeValue(value reflect.Value) {
 			return
 		}
 	default:
-		panic("неизвестная штука: " + value.Type().String())
+		// registered objects can contain such fields (msg_copy has bare message inside), and which object
+		// is decoding depends on data only. so it's a decoding error, not a reason to panic
+		d.err = fmt.Errorf("decoding of %v is not supported", value.Type())
+		return
 	}
 
 	if d.err != nil {
